@@ -92,6 +92,26 @@ class ArchInfo:
             if idm.match(k) and k not in words:
                 raise ExportFail('identifier-shaped keyword %r is not accepted as a label' % k)
         self.str_words = words
+        # what does the semantic action of `$str$ -> <keyword>` return for a differently-cased spelling?
+        from ppci.lang.common import Token
+        self.kwlabel_lower = None
+        for p in self.prods.get('$str$', [])[1:]:
+            w = p.symbols[0]
+            if w.isalpha() and w.upper() != w:
+                try:
+                    from ppci.common import SourceLocation
+                    r = p.f(Token(w, w.upper(), SourceLocation(None, 1, 1, 1)))
+                except Exception as ex:   # noqa: BLE001
+                    raise ExportFail('cannot probe $str$ keyword production: %s' % ex)
+                if r == w:
+                    self.kwlabel_lower = True
+                elif r == w.upper():
+                    self.kwlabel_lower = False
+                else:
+                    raise ExportFail('$str$ keyword production returns %r for %r' % (r, w.upper()))
+                break
+        if self.kwlabel_lower is None:
+            raise ExportFail('no alphabetic keyword to probe the $str$ production')
 
     # ---- register classes
     def regclass(self, cls):
@@ -455,6 +475,8 @@ def render_arch(nm, info, entries, extra, unmodelled):
             '; '.join('(%s, %d%%nat)' % (cstr(w), k) for w, k in (rc['rules'] or []))))
     out.append('Definition regs_%s : list regclass := [\n  %s].' % (nm, ';\n  '.join(rcs)))
     out.append('Definition kws_%s : list string := [%s].' % (nm, '; '.join(cstr(k) for k in info.kws)))
+    out.append('(* does `$str$ -> <keyword>` return the lower-case keyword (true) or the text as written (false)? *)')
+    out.append('Definition kwlabel_lower_%s : bool := %s.' % (nm, 'true' if info.kwlabel_lower else 'false'))
     out.append('Definition stab_%s : list sentry := [\n  %s].' % (nm, ';\n  '.join(centry(e) for e in good)))
     out.append('(* productions of `instruction` that do not come from an ISA class (directives, pseudo instructions of the assembler) *)')
     out.append('Definition extra_%s : list sentry := [\n  %s].' % (nm, ';\n  '.join(centry(e) for e in xgood)))
